@@ -140,11 +140,16 @@ class FileResponseMixin:
         }
         if download_name or content_type == "application/octet-stream":
             download_name = download_name or os.path.basename(filepath)
-            try:
-                download_name.encode("ascii")
+            if (
+                download_name.isascii()
+                and download_name.isprintable()
+                and '"' not in download_name
+                and "\\" not in download_name
+            ):
                 fallback_name = download_name
-            except UnicodeEncodeError:
-                # header values must be Latin-1; old clients get the escaped form
+            else:
+                # header values must be printable Latin-1 and the name sits in a
+                # quoted string; old clients get the escaped form
                 fallback_name = quote(download_name)
             content_disposition = (
                 "attachment; "
